@@ -326,8 +326,14 @@ fn w_live(ctx: &mut Ctx) {
         // max_iter = 0, i.e. the identity-scaling KKT system that default_start assembles over the old state
         // phase 2 (a third of the cases): fault injection - a NaN is written into A through update_A, a solve
         // fails on it (failed factorisation path), A is repaired and the solver is used again
-        let nphases = if case % 3 == 0 && p.A.nnz() > 0 { 3usize } else { 2usize };
-        for phase in 0..nphases {
+        // phase 3 (another third of the cases): in-place update of every value of P and A (same patterns, new
+        // numbers, off-diagonals included) followed by a short solve: both copies of the KKT matrix must follow
+        let phases: Vec<usize> = match case % 3 {
+            0 if p.A.nnz() > 0 => vec![0, 1, 2],
+            1 if p.A.nnz() > 0 => vec![0, 1, 3],
+            _ => vec![0, 1],
+        };
+        for phase in phases {
         if phase == 1 {
             solver.settings.max_iter = 0;
             if problem::solve_observed(&mut solver).is_err() {
@@ -350,6 +356,18 @@ fn w_live(ctx: &mut Ctx) {
                 break;
             }
             ctx.bump(&format!("live_snapshots_after_failed_solve_{}", problem::status_name(failed_status)));
+        }
+        if phase == 3 {
+            let pt = p.P.to_triu();
+            let newp: Vec<f64> = pt.nzval.iter().map(|v| v * rng.range(0.8, 1.25)).collect();
+            let newa: Vec<f64> = p.A.nzval.iter().map(|v| v * rng.range(0.8, 1.25) + 0.01 * rng.range(-1.0, 1.0)).collect();
+            solver.settings.max_iter = st.max_iter;
+            let okp = newp.is_empty() || solver.update_P(&newp).is_ok();
+            if !okp || solver.update_A(&newa).is_err() || problem::solve_observed(&mut solver).is_err() {
+                ctx.bump("live_update_refused_or_panicked");
+                break;
+            }
+            ctx.bump("live_snapshots_after_data_update");
         }
         let snap = solver.kktsystem.verif_snapshot();
         ctx.eval(1);
@@ -526,6 +544,7 @@ fn w_live(ctx: &mut Ctx) {
             let o = match phase {
                 1 => format!("{o}:after_resolve"),
                 2 => format!("{o}:after_failed_solve"),
+                3 => format!("{o}:after_data_update"),
                 _ => o,
             };
             ctx.violation(&o, &o, wl, case, detail(d));
